@@ -1,5 +1,6 @@
 import CifModel.Lemmas.LadderDup
 import CifModel.Lemmas.LadderClone
+import CifModel.Lemmas.LadderNames
 /-
   CifModel.Lemmas.LadderSummary — the ladder summaries specialised to a call that starts with an empty window
   (no request made yet, nothing live): the statements the property theorems of Props/C17 restate.
@@ -121,5 +122,86 @@ theorem set_summary (k : Nat) (sh : Shape) :
   · have b := bad_init h3
     rw [h1, h2]
     exact ⟨h4.1, .inr rfl, by simp [OK_ne_MEMORY_ERROR], by simpa [OK_ne_MEMORY_ERROR] using b.2.2.1⟩
+
+-- ---------------------------------------------------------------------------------------------------------------
+-- cif_loop_get_names
+
+/-- the checker is a function: a sequence cannot be balanced with two different live sets -/
+theorem balanced_unique {evs : List Ev} {A B : List Nat} (hA : Balanced evs A) (hB : Balanced evs B) : A.Perm B := by
+  obtain ⟨L, hL, pL⟩ := hA
+  obtain ⟨M, hM, pM⟩ := hB
+  rw [hL] at hM
+  cases hM
+  exact pL.symm.trans pM
+
+theorem names_outcome (fixed : Bool) (k n : Nat) :
+    Good k (namesAllocs n) {} (getNamesGen fixed k n).2.2 ∨ Bad k (namesAllocs n) {} (getNamesGen fixed k n).2.2 := by
+  rcases getNamesGen_spec fixed k n {} [] Inv.nil with h | h
+  · exact .inl h.2.1
+  · exact .inr h.2.2.1
+
+theorem INVALID_HANDLE_ne_OK : INVALID_HANDLE ≠ OK := by decide
+
+/-- the repaired variant -/
+theorem names_summary (k n : Nat) :
+    Balanced (getNames k n).2.2.evs (getNames k n).2.1 ∧
+    ((getNames k n).1 = OK ∨ (getNames k n).1 = MEMORY_ERROR ∨ (n = 0 ∧ (getNames k n).1 = INVALID_HANDLE)) ∧
+    ((getNames k n).1 ≠ OK → (getNames k n).2.1 = []) ∧
+    (0 < n → ((getNames k n).1 = OK ↔ NoFail (getNames k n).2.2.evs)) ∧
+    ((getNames k n).1 = OK → (getNames k n).2.1.length = n + 1) := by
+  unfold getNames
+  rcases getNamesGen_spec true k n {} [] Inv.nil with ⟨h1, h2, h3, h4⟩ | ⟨h1, h2, h3, h4⟩
+  · have g := good_init h2
+    by_cases hn : n = 0
+    · rw [if_pos hn] at h1
+      have hne : (getNamesGen true k n).1 ≠ OK := by rw [h1]; exact INVALID_HANDLE_ne_OK
+      have hlen : (getNamesGen true k n).2.1 = [] := by
+        apply List.eq_nil_of_length_eq_zero; rw [h3, hn]; rfl
+      refine ⟨by simpa using h4.1, .inr (.inr ⟨hn, h1⟩), fun _ => hlen, fun h => absurd hn (by omega),
+        fun h => absurd h hne⟩
+    · rw [if_neg hn] at h1
+      refine ⟨by simpa using h4.1, .inl h1, fun h => absurd h1 h, fun _ => ⟨fun _ => g.2.2.1, fun _ => h1⟩, ?_⟩
+      intro _; rw [h3]; unfold namesAllocs; simp [hn]; omega
+  · have b := bad_init h3
+    have hne : (getNamesGen true k n).1 ≠ OK := by rw [h1]; exact OK_ne_MEMORY_ERROR
+    have hl : (if k ≤ ({} : St).count + 2 * n then leakOf true k ({} : St).count else []) = [] := by
+      simp [leakOf]
+    rw [hl] at h4
+    refine ⟨by rw [h2]; exact h4.1, .inr (.inl h1), fun _ => h2,
+      fun _ => ⟨fun h => absurd h hne, fun h => absurd h b.2.2.1⟩, fun h => absurd h hne⟩
+
+/-- the blocks leaked by the code as it is: the list node obtained by request `k - 1` when the failed request `k` is the
+    allocation of a name string (an even request among the first 2n) -/
+def namesLeak (k n : Nat) : List Nat := if 1 ≤ k ∧ k ≤ 2 * n ∧ k % 2 = 0 then [k - 1] else []
+
+/-- the code as it is: exactly `namesLeak` stays live beyond what the caller owns -/
+theorem names_pinned_summary (k n : Nat) :
+    Balanced (getNamesPinned k n).2.2.evs ((getNamesPinned k n).2.1 ++ namesLeak k n) ∧
+    (namesLeak k n ≠ [] → (getNamesPinned k n).1 = MEMORY_ERROR ∧ (getNamesPinned k n).2.1 = [] ∧
+      ¬ Balanced (getNamesPinned k n).2.2.evs (getNamesPinned k n).2.1) := by
+  unfold getNamesPinned
+  rcases getNamesGen_spec false k n {} [] Inv.nil with ⟨h1, h2, h3, h4⟩ | ⟨h1, h2, h3, h4⟩
+  · have g := good_init h2
+    have hl : namesLeak k n = [] := by
+      unfold namesLeak
+      have := g.2.1
+      unfold namesAllocs at this
+      split at this <;> simp <;> omega
+    rw [hl]
+    exact ⟨by simpa using h4.1, fun h => absurd rfl h⟩
+  · have b := bad_init h3
+    have hl : (if k ≤ ({} : St).count + 2 * n then leakOf false k ({} : St).count else []) = namesLeak k n := by
+      have h1k := b.1
+      show (if k ≤ 0 + 2 * n then leakOf false k 0 else []) = namesLeak k n
+      unfold leakOf namesLeak
+      by_cases hk : k ≤ 2 * n <;> by_cases hp : k % 2 = 0 <;> simp [hk, hp, h1k]
+    rw [hl] at h4
+    have hb : Balanced (getNamesGen false k n).2.2.evs ((getNamesGen false k n).2.1 ++ namesLeak k n) := by
+      rw [h2]; simpa using h4.1
+    refine ⟨hb, fun hne => ⟨h1, h2, fun hb' => ?_⟩⟩
+    have p := balanced_unique hb' hb
+    rw [h2] at p
+    simp only [List.nil_append] at p
+    exact hne (List.Perm.nil_eq p).symm
 
 end CifModel.Lemmas.Ladder
